@@ -183,6 +183,9 @@ def lift_rules(chk, S, r1, r2, r3):
                     ev = evs[0]
                     for ok, construct, detail in xdomain.check_event(it, ev, lambda t, tg=target: t.op == "call" and t.args[0] is tg, tt):
                         r2.require(ok, f"{name} time differentiated", detail, detail, ev["site"], cfg)
+                    # the lifted function returns *derivatives* (what the constraints compare with the state's Taylor derivatives): jet must use the
+                    # derivative convention, is_tcoeff=False; with normalised coefficients output k would be off by k! from k = 2 on
+                    r2.require(ev.get("is_tcoeff", False) is False, f"{name} derivative convention", "func.jet(..., is_tcoeff=False)", f"is_tcoeff={ev.get('is_tcoeff')}", ev["site"], cfg)
                     # primals are the first num coefficients (raveled) followed by t; series k = coefficients k+1 .. k+lift_by
                     ps, ss = ev["primals"], ev["series"]
                     rav = [T.mk("tree.ravel", (c,)) for c in coords]
